@@ -528,6 +528,7 @@ def verify_hyperparameters(lattice_sizes=None,
                          "'monotonicities': %s" % (input_shape, monotonicities))
       shape = input_shape[0]
     else:
+      input_shape = tf.TensorShape(input_shape)
       dims = input_shape.as_list()[-1]
       # Check monotonicity.
       if monotonicities and len(monotonicities) != dims:
